@@ -145,7 +145,7 @@ func init() {
 						}
 					})
 				}
-				c.Check(ok && n == 1, "wrapper-delegates:"+suf, c.P.Pos(wr.Pos()), "calls reassemblyQueue.forwardTSNFor"+suf+" with its own argument", "wrapper calls a different purge or passes something else")
+				c.Check(ok && n >= 1, "wrapper-delegates:"+suf, c.P.Pos(wr.Pos()), "calls reassemblyQueue.forwardTSNFor"+suf+" with its own argument", "wrapper calls a different purge or passes something else")
 				// the reader is woken on what the purge made readable: isReadable() is evaluated after the purge
 				isR := c.Fn("reassemblyQueue.isReadable")
 				nR, okAfter := 0, true
